@@ -37,6 +37,12 @@ def run(rep, tier, seed, model_ok=True, effort=1):
         spec = rwgen.gen_project(r, impl, legacy=(r.random() < 0.2), max_files=3, allow_mixed=False)
         if not spec["old"]:
             continue
+        scripted = None
+        if h == 0:
+            # corpus history: the config gets ahead of the newest tag across a 9 -> 10 digit boundary
+            spec = rwgen.gen_project(common.rng(1, "c08-corpus"), impl, legacy=False, max_files=2, allow_mixed=False)
+            spec["vp"], spec["flags"], spec["old"] = "MAJOR.MINOR.PATCH", ["--minor"], "1.8.0"
+            scripted = ["update", "no-tag", "update", "allow-dirty", "update"]
         spec["cfg_prefix"] = ""
         with rwgen.to_temp_project(project, spec, commit=True, tag=True, push=False, vcs=None) as prj:
             rwgen.write_contents(prj, spec)
@@ -50,11 +56,20 @@ def run(rep, tier, seed, model_ok=True, effort=1):
             prj.git("commit", "-q", "-m", "initial")
             cur = spec["old"]
             date = spec["date"]
-            steps = r.randrange(1, 13)
+            steps = len(scripted) if scripted else r.randrange(1, 13)
             trace = []
             on_feature = False
             for s in range(steps):
-                op = r.choice(["update", "update", "update", "update", "fail", "no-commit", "no-tag", "unrelated", "branch"])
+                op = scripted[s] if scripted else r.choice(["update", "update", "update", "update", "fail", "no-commit", "no-tag", "unrelated", "branch", "allow-dirty"])
+                dirty_file = None
+                if op == "allow-dirty":
+                    # an unrelated tracked file has unstaged edits; --allow-dirty must leave it out of the bump commit
+                    dirty_file = "wip.txt"
+                    if not os.path.exists(prj.path(dirty_file)):
+                        open(prj.path(dirty_file), "w").write("first\n")
+                        prj.git("add", dirty_file)
+                        prj.git("commit", "-q", "-m", "add wip file")
+                    open(prj.path(dirty_file), "a").write("work in progress %d\n" % s)
                 tags0, n0, _ = git_state(prj)
                 before = prj.snapshot()
                 if op == "unrelated":
@@ -71,6 +86,9 @@ def run(rep, tier, seed, model_ok=True, effort=1):
                     on_feature = not on_feature
                     # the working tree now shows that branch's version
                     c2, o2, _, _ = prj.run(impl, ["show", "--no-fetch", "--ignore-vcs-tag"])
+                    shown = next((l.split("Current Version: ", 1)[1] for l in o2.splitlines() if l.startswith("Current Version: ")), None)
+                    if shown:
+                        cur = shown      # the config value of the branch that is checked out now
                     trace.append("OBranch")
                     continue
                 date = date + dt.timedelta(days=r.choice([0, 1, 31, 400]))
@@ -81,6 +99,8 @@ def run(rep, tier, seed, model_ok=True, effort=1):
                     args.append("--no-commit")
                 if op == "no-tag":
                     args.append("--no-tag-commit")
+                if op == "allow-dirty":
+                    args.append("--allow-dirty")
                 code, out, logs, exc = prj.run(impl, args)
                 old_a, new_a = rwcheck.announced(logs)
                 tags1, n1, head_tags = git_state(prj)
@@ -92,7 +112,9 @@ def run(rep, tier, seed, model_ok=True, effort=1):
                 if code != 0:
                     if after != before or tags1 != tags0 or n1 != n0:
                         rep.violation("a failing update changed files, tags or commits", input=inp, **{"class": "fail-changed-state"})
-                    if op in ("update", "no-tag", "no-commit"):
+                    if dirty_file:
+                        prj.git("checkout", "--", dirty_file)
+                    if op in ("update", "no-tag", "no-commit", "allow-dirty"):
                         rep.notes.append("update refused in history %d step %d: %s" % (h, s, logs[-1:] ))
                     trace.append("OFail")
                     continue
@@ -130,6 +152,10 @@ def run(rep, tier, seed, model_ok=True, effort=1):
                     # files whose text did not change are naturally absent from the commit
                     if not (set(files) <= set(want_files) and prj.fmt in files):
                         rep.violation("the bump commit contains %s, configured files are %s" % (files, want_files), input=inp, **{"class": "commit-files"})
+                    if dirty_file:
+                        if dirty_file in files or (" M %s" % dirty_file) not in prj.git("status", "--porcelain"):
+                            rep.violation("--allow-dirty swept the unstaged edits of %s into the bump commit" % dirty_file, input=inp, **{"class": "swept-in"})
+                        prj.git("checkout", "--", dirty_file)
                     if op == "no-tag":
                         if tags1 != tags0:
                             rep.violation("--no-tag-commit created a tag", input=inp, **{"class": "no-tag-tagged"})
